@@ -143,7 +143,7 @@ fn gen_case(args: &Args, rng: &mut rand::rngs::StdRng) -> CaseCfg {
     let max_logs = *pick(rng, &[2u64, 4, 8, 10_000]);
     let fault = if long { *pick(rng, &[0u32, 3]) } else { *pick(rng, &[0u32, 10, 25, 40]) };
     let span = if long {
-        rng.gen_range(150..=args.by_tier(260u64, 500))
+        rng.gen_range(150..=args.by_tier(260u64, 400))
     } else {
         rng.gen_range(8..=60)
     };
@@ -562,7 +562,7 @@ fn main() {
                 run_case(&args, &report, cs);
             } else {
                 let shards = args.by_tier(32usize, 64);
-                let per = args.by_tier(28usize, 400);
+                let per = args.by_tier(28usize, 130);
                 let a = args.clone();
                 let r = report.clone();
                 run_shards(&report, &args, shards, move |_i, s| {
@@ -572,10 +572,10 @@ fn main() {
                 });
                 if !args.extra.contains_key("selftest") {
                     let q = !args.is_thorough();
-                    report.require("cases", if q { 600 } else { 15_000 });
-                    report.require("db.insert_ok", if q { 25_000 } else { 800_000 });
-                    report.require("db.insert_nonempty", if q { 10_000 } else { 300_000 });
-                    report.require("heights_compared.nonempty", if q { 25_000 } else { 800_000 });
+                    report.require("cases", if q { 600 } else { 6_000 });
+                    report.require("db.insert_ok", if q { 25_000 } else { 300_000 });
+                    report.require("db.insert_nonempty", if q { 10_000 } else { 120_000 });
+                    report.require("heights_compared.nonempty", if q { 25_000 } else { 300_000 });
                     report.require("cases.with_restart", 50);
                     report.require("cases.with_rpc_failure", 100);
                     report.require("pager.shrinks_seen", 100);
